@@ -182,7 +182,14 @@ CLAIMS["C13"] = {
             "write_to_storage calls — repeated writes within one epoch and the epoch-preserving decompression rewrite included — and "
             "EVERY target epoch t, however far behind, determine_node_to_get returns the version that was current at t or an "
             "error, never a newer one (snapshot_read with write_preserves / write_new / write_frame); so a request that fixes its "
-            "target epoch once reads the tree of that epoch or fails. The pinned rule was wrong at lag >= 2 (lag2_witness, defect "
+            "target epoch once reads the tree of that epoch or fails. REQUEST LEVEL (Thm/C13c): after a complete further publish "
+            "the store shows, as of ANY earlier epoch, what it showed before or 'not found' (viewLe_publish; transitive, so for any "
+            "number of publishes); on such a view every proof generator returns exactly its earlier answer or an error (reads_le, "
+            "audit_le) — which needed the proof generators' child read to FAIL when a named child cannot be read "
+            "(getChildForProof): with the pinned rule it does not hold (legacy_lag_witness), defect D13, found on the real code by "
+            "lagging readers with a partly warm cache and repaired; hence an instance that still holds an old epoch record answers "
+            "the epoch hash and every lookup, history and audit request exactly as the directory did at that epoch, or with an error "
+            "(lagging_requests). The pinned rule was wrong at lag >= 2 (lag2_witness, defect "
             "D4, repaired). Tied to the Rust by runs with read-only instances lagging 0..3 epochs, compared with the model and "
             "judged by the published-epoch-hash oracle, AND by enumerating all interleavings (bounded preemptions) of read requests "
             "on a second instance with a publish at storage-call granularity — which found that key_history re-read the epoch record "
